@@ -67,6 +67,20 @@ func manyProviders(n int) []sdk.AccAddress {
 	return out
 }
 
+// maxCoins is the largest amount an sdk.Int can hold (2^255-1).
+func maxCoins() sdk.Coins {
+	one := sdk.NewInt(1)
+	m := one
+	for i := 0; i < 255; i++ {
+		m = m.Add(m)
+		if i == 253 {
+			break
+		}
+	}
+	// m = 2^254; 2^255-1 = m + (m - 1)
+	return sdk.NewCoins(sdk.NewCoin(denom, m.Add(m.Sub(one))))
+}
+
 func hugeCoins() sdk.Coins {
 	h, _ := sdk.NewIntFromString("4" + strings.Repeat("0", 76))
 	return sdk.NewCoins(sdk.NewCoin(denom, h))
@@ -84,10 +98,13 @@ func inputMessages(ctxID, reqID []byte) []inputCase {
 	addrDom := func(own sdk.AccAddress) []sdk.AccAddress {
 		return []sdk.AccAddress{own, sdk.AccAddress([]byte{0x70}), append(append(sdk.AccAddress{}, own...), 0x01)}
 	}
-	coinDom := []sdk.Coins{nil, {}, coins(1), coins(10), hugeCoins(), sdk.NewCoins(sdk.NewInt64Coin("foo", 10)),
+	coinDom := []sdk.Coins{nil, {}, coins(1), coins(10), hugeCoins(), maxCoins(), sdk.NewCoins(sdk.NewInt64Coin("foo", 10)),
 		sdk.NewCoins(sdk.NewInt64Coin("foo", 10), sdk.NewInt64Coin(denom, 10))}
 	hugePrice := `{"price":"4` + strings.Repeat("0", 76) + `stake"}`
 	pricingDom := []string{`{"price":"0stake"}`, `{"price":"1stake"}`, `{"price":"1.5stake"}`, `{"price":"7foo"}`, hugePrice, pricingText("p2v"), pricingText("p1t"),
+		`{"price":"1stake","promotions_by_time":[{"start_time":"0000-01-01T00:00:00Z","end_time":"0000-06-01T00:00:00Z","discount":"0.5"}]}`,
+		`{"price":"1stake","promotions_by_time":[{"start_time":"9999-01-01T00:00:00Z","end_time":"9999-12-31T23:59:59Z","discount":"0.5"}]}`,
+		`{"price":"1stake","promotions_by_volume":[{"volume":18446744073709551615,"discount":"0.5"}]}`,
 		`{"price":"1stake","promotions_by_volume":[{"volume":1,"discount":"0.5"},{"volume":1,"discount":"0.4"}]}`}
 	svcDom := []string{"a", "zz", long70}
 	qosDom := []uint64{1, 3, 4, 1<<64 - 1}
@@ -148,7 +165,7 @@ func inputMessages(ctxID, reqID []byte) []inputCase {
 		for _, svc := range []string{"a", "zz"} {
 			for _, pv := range provDom {
 				for _, in := range []string{inputOK, `{"header":{}}`} {
-					for _, cap := range []sdk.Coins{{}, coins(1), coins(5), hugeCoins(), sdk.NewCoins(sdk.NewInt64Coin("foo", 10)), sdk.NewCoins(sdk.NewInt64Coin("foo", 10), sdk.NewInt64Coin(denom, 10))} {
+					for _, cap := range []sdk.Coins{{}, coins(1), coins(5), hugeCoins(), maxCoins(), sdk.NewCoins(sdk.NewInt64Coin("foo", 10)), sdk.NewCoins(sdk.NewInt64Coin("foo", 10), sdk.NewInt64Coin(denom, 10))} {
 						for _, to := range []int64{1, 3, 4, 1<<63 - 1} {
 							for _, sup := range []bool{false, true} {
 								add("call", st.NewMsgCallService(svc, pv, c, in, cap, to, sup, false, 0, 0))
